@@ -531,16 +531,12 @@ fn run_history(sc: &Scenario, chooser: Chooser, keep_log: bool) -> HistoryOut {
                 });
                 let entry_b = p.b.entry.clone();
                 let cfg_b = sc.cfg.clone();
-                let hb = std::thread::Builder::new()
-                    .name("process-b".into())
-                    .stack_size(64 << 20)
-                    .spawn(move || {
-                        mach::conc_wait_turn(1);
-                        let r = run_entry(entry_b, &cfg_b);
-                        mach::conc_finish(1);
-                        r
-                    })
-                    .expect("spawn process b");
+                let hb = simkit::spawn_os_thread("process-b".into(), 16 << 20, move || {
+                    mach::conc_wait_turn(1);
+                    let r = run_entry(entry_b, &cfg_b);
+                    mach::conc_finish(1);
+                    r
+                });
                 let ra = run_entry(run.entry.clone(), &sc.cfg);
                 mach::conc_finish(0);
                 let rb = hb.join().expect("process b thread");
@@ -1278,7 +1274,11 @@ impl Harness for C20 {
         let mut runs = Vec::new();
         let mut version = 10 + rng.below(8) as u32;
         for i in 0..nruns {
-            version += 1;
+            // The endpoint changes once an hour: one run in three is served the
+            // document the previous run was (or should have been) served.
+            if i == 0 || !rng.chance(1, 3) {
+                version += 1;
+            }
             let entry = if full && (i == 0 || rng.chance(1, 3)) {
                 if rng.chance(1, 3) {
                     Entry::StartupSandboxed
